@@ -346,6 +346,44 @@ func main() {
 			}
 			sort.Slice(fi, func(i, j int) bool { return fi[i].Name < fi[j].Name })
 			reply(Resp{OK: true, Fracs: fi})
+		case "bulkfault":
+			// a bulk whose first write attempts hit a file size limit (as a full disk would
+			// fail them) that is lifted DelayMs later; the store retries the bulk by itself
+			docsFile := st.FM.Active().Info().Path + ".docs"
+			fi, err := os.Stat(docsFile)
+			if err != nil {
+				reply(Resp{Err: err.Error()})
+				continue
+			}
+			lim := syscall.Rlimit{Cur: uint64(fi.Size()) + c.Bytes, Max: ^uint64(0)}
+			if err := syscall.Setrlimit(syscall.RLIMIT_FSIZE, &lim); err != nil {
+				reply(Resp{Err: err.Error()})
+				continue
+			}
+			done := make(chan error, 1)
+			go func() { done <- st.Bulk(c.Docs) }()
+			time.Sleep(time.Duration(max(1, c.DelayMs)) * time.Millisecond)
+			lim.Cur = ^uint64(0)
+			_ = syscall.Setrlimit(syscall.RLIMIT_FSIZE, &lim)
+			var berr error
+			select {
+			case berr = <-done:
+			case <-time.After(10 * time.Second):
+				reply(Resp{Err: "hang: the bulk did not return within 10 s after the limit was lifted"})
+				continue
+			}
+			if berr != nil {
+				reply(Resp{Err: berr.Error()})
+				continue
+			}
+			idle := make(chan struct{})
+			go func() { st.WaitIdle(); close(idle) }()
+			select {
+			case <-idle:
+				reply(Resp{OK: true})
+			case <-time.After(5 * time.Second):
+				reply(Resp{OK: true, Failed: "hang: indexing of the acknowledged bulk did not become idle within 5 s"})
+			}
 		case "rlimit":
 			lim := syscall.Rlimit{Cur: c.Bytes, Max: ^uint64(0)}
 			if c.Bytes == 0 {
